@@ -34,7 +34,17 @@ COMPOSITES = [
 def is_required_keys_loop(node):
     """the loop of StructuredTypeUnmarshaller.__call__ that checks a TypedDict's required keys: identified by what it iterates over"""
     import ast as _ast
-    return isinstance(node, _ast.For) and "__required_keys__" in _ast.unparse(node.iter)
+    if not isinstance(node, _ast.For):
+        return False
+    if "__required_keys__" in _ast.unparse(node.iter):
+        return True
+    # ... or by what it does: `for k in <anything>: if k not in <kwargs>: raise ...` (the keys may have been computed earlier,
+    # e.g. in the constructor; that they ARE the target's required keys is then an obligation of the loop's invariant)
+    b = node.body
+    return (len(b) == 1 and isinstance(b[0], _ast.If) and isinstance(b[0].test, _ast.Compare) and len(b[0].test.ops) == 1
+            and isinstance(b[0].test.ops[0], _ast.NotIn) and isinstance(node.target, _ast.Name)
+            and isinstance(b[0].test.left, _ast.Name) and b[0].test.left.id == node.target.id
+            and any(isinstance(x, _ast.Raise) for x in b[0].body))
 
 
 def make_interp():
